@@ -33,6 +33,16 @@ def handleL1 (j : Json) : Except String Json := do
   match j.getObjVal? "obs" with
   | .error _ => pure (Json.mkObj base)
   | .ok oj =>
+    if (getBool oj "nosegs").toOption.getD false then
+      -- degraded mode: only acceptance is observed
+      let modelOk := match parse E with | .ok _ => true | .error _ => false
+      let shiftsOk ← (optList j "shifts").toList.mapM fun sj => do
+        pure ((getBool (← sj.getObjVal? "obs") "ok").toOption.getD false)
+      return (Json.mkObj (base ++
+        [("agree", Json.bool modelOk), ("affects", Json.arr #[Json.str "C02", Json.str "C19"]),
+         ("c01", Json.bool true),
+         ("c02", Json.bool (match lexRegions E with | .error _ => false | .ok _ => true)),
+         ("c19", Json.bool (shiftsOk.all id))]))
     let obs ← parseObs oj
     let shifts ← (optList j "shifts").toList.mapM fun sj => do
       pure ((← getNat sj "k"), (← parseObs (← sj.getObjVal? "obs")))
